@@ -8,8 +8,7 @@ Record Rcore (w : world) (sid : nat) (c : cstate) : Prop := mkR {
   r_sub : nth_error (w_subs w) sid = Some (c_sub c);
   r_kern : a_find (s_pid (c_sub c)) (w_kern w) = Some (kst_of (c_ph c));
   r_wait : a_find (s_pid (c_sub c)) (w_waiting w) = if c_inw c then Some sid else None;
-  r_calls : calls_of sid (w_log w) = c_calls c;
-  r_init : c_inw c = true -> w_init w = true
+  r_calls : calls_of sid (w_log w) = c_calls c
 }.
 Definition R (w : world) (sid : nat) (c : cstate) : Prop :=
   Rcore w sid c /\ qfilter sid (w_queue w) = q_of sid c.
@@ -53,12 +52,12 @@ Proof.
   destruct (invoke sid _ cb rc) as [s3 evs]. repeat split.
 Qed.
 
-Lemma cstep_cwf sid c e : cwf c -> cwf (cstep sid c e).
+Lemma cstep_cwf sid h c e : cwf c -> cwf (cstep sid h c e).
 Proof.
-  intros W. destruct e as [q|q st| |s l|s l re|]; cbn [cstep].
+  intros W. destruct e as [q|q st| |s l|s l re| | |]; cbn [cstep].
   - exact W.
   - destruct (q =? s_pid (c_sub c)); [|exact W]. unfold cwf in *. destruct c as [sb [|st'|st'|st'] inw calls lt]; simpl in *; auto.
-  - destruct (c_inw c); [apply ctry_cwf|]; exact W.
+  - destruct (h && c_inw c); [apply ctry_cwf|]; exact W.
   - destruct (Nat.eqb s sid); [|exact W]. unfold creg. destruct (s_rc (c_sub c)) eqn:Rc.
     + unfold cwf in *. simpl. destruct (c_ph c); try exact I; destruct W; congruence.
     + apply ctry_cwf. unfold cwf in *. simpl. destruct (c_ph c); try exact I; (split; [exact Rc|apply W]).
@@ -73,10 +72,15 @@ Proof.
     + unfold cwf. destruct (crun_late_ph sid (creport sid st c)) as [A _]. rewrite A.
       destruct (creport_ph sid st c) as [B _]. rewrite B. exact I.
     + unfold cwf. destruct (crun_late_ph sid c) as [A _]. rewrite A, P. exact I.
+  - exact W.
+  - exact W.
 Qed.
 
-Lemma fold_cwf sid r : forall c, cwf c -> cwf (fold_left (cstep sid) r c).
-Proof. induction r as [|e r IH]; intros c W; simpl; [exact W|]. apply IH, cstep_cwf, W. Qed.
+Lemma fold_cwf sid r : forall w c, cwf c -> cwf (trk sid w r c).
+Proof.
+  unfold trk. induction r as [|e r IH]; intros w c W; simpl; [exact W|].
+  apply (IH (step w e)). apply cstep_cwf, W.
+Qed.
 
 Lemma cinit_cwf p : cwf (cinit p).
 Proof. split; reflexivity. Qed.
@@ -84,7 +88,7 @@ Proof. split; reflexivity. Qed.
 (* ---------- _try_cleanup_process on the object's own pid / on another pid ---------- *)
 Lemma try_self w sid c : R w sid c -> cwf c -> probe_ok c -> R (try_cleanup w (s_pid (c_sub c))) sid (ctry c).
 Proof.
-  intros Rw Wf P. pose proof Rw as [[Hs Hk Hw Hc Hi] Hq]. unfold try_cleanup, ctry. rewrite Hk.
+  intros Rw Wf P. pose proof Rw as [[Hs Hk Hw Hc] Hq]. unfold try_cleanup, ctry. rewrite Hk.
   destruct (c_ph c) as [|st|st|st] eqn:E; simpl; try exact Rw.
   destruct P as [P|P]; [|exfalso; exact (P _ E)].
   unfold cwf in Wf. rewrite E in Wf. destruct Wf as [_ Wl].
@@ -93,13 +97,12 @@ Proof.
   - apply a_find_set_same.
   - apply a_find_remove_same.
   - exact Hc.
-  - discriminate.
   - rewrite qfilter_app, Hq. unfold q_of, qfilter. simpl. rewrite E, Wl, Nat.eqb_refl. reflexivity.
 Qed.
 
 Lemma try_other w sid c q : G w -> R w sid c -> q <> s_pid (c_sub c) -> R (try_cleanup w q) sid c.
 Proof.
-  intros Gw [[Hs Hk Hw Hc Hi] Hq] N. unfold try_cleanup.
+  intros Gw [[Hs Hk Hw Hc] Hq] N. unfold try_cleanup.
   destruct (a_find q (w_kern w)) as [[|st|st]|] eqn:K; try (split; [constructor|]; assumption).
   destruct (a_find q (w_waiting w)) as [s'|] eqn:W; (split; [constructor|]); simpl; try assumption.
   - rewrite a_find_set_other by exact N. exact Hk.
@@ -128,29 +131,28 @@ Proof.
 Qed.
 
 Lemma sigchld_R w sid c : G w -> R w sid c -> cwf c ->
-  R (if w_init w then cleanup w else w) sid (if c_inw c then ctry c else c).
+  R (if w_init w then cleanup w else w) sid (if w_init w && c_inw c then ctry c else c).
 Proof.
-  intros Gw Rw Wf. pose proof Rw as [[Hs Hk Hw Hc Hi] Hq].
-  destruct (w_init w) eqn:I.
-  - unfold cleanup.
-    assert (Hin : In (s_pid (c_sub c)) (map fst (w_waiting w)) <-> c_inw c = true).
-    { destruct (c_inw c) eqn:E.
-      - split; [reflexivity|]. intros _. apply a_find_in in Hw. apply (in_map fst) in Hw. exact Hw.
-      - apply a_find_none_keys in Hw. split; [contradiction|discriminate]. }
-    pose proof (cleanup_fold sid (map fst (w_waiting w)) w c Gw Rw Wf (fun H => or_introl (proj1 Hin H))) as F.
-    destruct (c_inw c) eqn:E.
-    + assert (Z : zmem (s_pid (c_sub c)) (map fst (w_waiting w)) = true) by (apply zmem_in, Hin; reflexivity).
-      rewrite Z in F. exact F.
-    + destruct (zmem (s_pid (c_sub c)) (map fst (w_waiting w))) eqn:Z; [|exact F].
-      apply zmem_in, Hin in Z. discriminate.
-  - destruct (c_inw c) eqn:E; [|exact Rw]. specialize (Hi eq_refl). congruence.
+  intros Gw Rw Wf. pose proof Rw as [[Hs Hk Hw Hc] Hq].
+  destruct (w_init w) eqn:I; [|exact Rw]. simpl.
+  unfold cleanup.
+  assert (Hin : In (s_pid (c_sub c)) (map fst (w_waiting w)) <-> c_inw c = true).
+  { destruct (c_inw c) eqn:E.
+    - split; [reflexivity|]. intros _. apply a_find_in in Hw. apply (in_map fst) in Hw. exact Hw.
+    - apply a_find_none_keys in Hw. split; [contradiction|discriminate]. }
+  pose proof (cleanup_fold sid (map fst (w_waiting w)) w c Gw Rw Wf (fun H => or_introl (proj1 Hin H))) as F.
+  destruct (c_inw c) eqn:E.
+  - assert (Z : zmem (s_pid (c_sub c)) (map fst (w_waiting w)) = true) by (apply zmem_in, Hin; reflexivity).
+    rewrite Z in F. exact F.
+  - destruct (zmem (s_pid (c_sub c)) (map fst (w_waiting w))) eqn:Z; [|exact F].
+    apply zmem_in, Hin in Z. discriminate.
 Qed.
 
 (* ---------- set_exit_callback / wait_for_exit ---------- *)
 Lemma reg_self w sid c prep cbof : good_prep prep -> R w sid c -> cwf c ->
   R (register w sid prep cbof) sid (creg prep cbof c).
 Proof.
-  intros K Rw Wf. pose proof Rw as [[Hs Hk Hw Hc Hi] Hq].
+  intros K Rw Wf. pose proof Rw as [[Hs Hk Hw Hc] Hq].
   destruct (K (c_sub c)) as [Kp [Kc Kr]]. unfold creg.
   destruct (s_rc (c_sub c)) as [rc|] eqn:Rc.
   - rewrite (register_late_eq w sid prep cbof (c_sub c) rc Hs Rc). unfold reg_late.
@@ -166,7 +168,6 @@ Proof.
       * rewrite Kp. exact Hk.
       * apply a_find_set_same.
       * exact Hc.
-      * reflexivity.
       * exact Hq.
     + unfold cwf in *. simpl. destruct (c_ph c); try exact I; (split; [congruence|apply Wf]).
 Qed.
@@ -174,7 +175,7 @@ Qed.
 Lemma reg_other w sid sid' c prep cbof : good_prep prep -> G w -> R w sid c -> sid' <> sid ->
   R (register w sid' prep cbof) sid c.
 Proof.
-  intros K Gw Rw N. pose proof Rw as [[Hs Hk Hw Hc Hi] Hq].
+  intros K Gw Rw N. pose proof Rw as [[Hs Hk Hw Hc] Hq].
   destruct (nth_error (w_subs w) sid') as [s'|] eqn:Hs'; [|unfold register; rewrite Hs'; exact Rw].
   destruct (K s') as [Kp [Kc Kr]].
   destruct (s_rc s') as [rc|] eqn:Rc.
@@ -192,14 +193,13 @@ Proof.
     + exact Hk.
     + rewrite Kp, a_find_set_other by exact NP. exact Hw.
     + exact Hc.
-    + reflexivity.
     + exact Hq.
 Qed.
 
 (* ---------- the IOLoop turn ---------- *)
 Lemma setrc_other w sid c s' st : Rcore w sid c -> s' <> sid -> Rcore (set_rc w (s', st)) sid c.
 Proof.
-  intros [Hs Hk Hw Hc Hi] N. unfold set_rc.
+  intros [Hs Hk Hw Hc] N. unfold set_rc.
   destruct (nth_error (w_subs w) s') as [s|] eqn:Hs'.
   2:{ constructor; simpl; try assumption. rewrite calls_app, Hc. simpl.
       assert (Nat.eqb s' sid = false) as -> by (apply Nat.eqb_neq; exact N). apply app_nil_r. }
@@ -217,7 +217,7 @@ Qed.
 
 Lemma late_other w sid c s' cb rc : Rcore w sid c -> s' <> sid -> Rcore (late_call w s' cb rc) sid c.
 Proof.
-  intros [Hs Hk Hw Hc Hi] N. unfold late_call.
+  intros [Hs Hk Hw Hc] N. unfold late_call.
   destruct (nth_error (w_subs w) s') as [s|] eqn:Hs'.
   2:{ constructor; simpl; try assumption. rewrite calls_app, Hc. simpl.
       assert (Nat.eqb s' sid = false) as -> by (apply Nat.eqb_neq; exact N). apply app_nil_r. }
@@ -239,7 +239,7 @@ Qed.
 Lemma setrc_self w sid c st : Rcore w sid c -> c_ph c = PhQueued st ->
   Rcore (set_rc w (sid, st)) sid (creport sid st c).
 Proof.
-  intros [Hs Hk Hw Hc Hi] E. pose proof (creport_sub_pid sid st c) as PP.
+  intros [Hs Hk Hw Hc] E. pose proof (creport_sub_pid sid st c) as PP.
   unfold set_rc, creport in *. rewrite Hs. rewrite E in Hk. simpl in Hk.
   assert (L := nth_error_lt _ _ _ Hs).
   destruct (decode st) as [rc|].
@@ -258,7 +258,7 @@ Lemma late_self w sid c cb rc lt : Rcore w sid c ->
   Rcore (late_call w sid cb rc) sid
         (mkC (fst (invoke sid (c_sub c) cb rc)) (c_ph c) (c_inw c) (c_calls c ++ snd (invoke sid (c_sub c) cb rc)) lt).
 Proof.
-  intros [Hs Hk Hw Hc Hi]. unfold late_call. rewrite Hs.
+  intros [Hs Hk Hw Hc]. unfold late_call. rewrite Hs.
   pose proof (invoke_pid sid (c_sub c) cb rc) as P. pose proof (invoke_calls_self sid (c_sub c) cb rc) as Q.
   destruct (invoke sid (c_sub c) cb rc) as [s3 evs]. simpl in *.
   constructor; simpl; rewrite ?P; try assumption.
@@ -343,7 +343,7 @@ Proof. apply fold_try_G. Qed.
 
 Lemma step_len w e : length (w_subs (step w e)) = (length (w_subs w) + (if is_spawn e then 1 else 0))%nat.
 Proof.
-  destruct e as [p|p st| |s l|s l re|]; simpl.
+  destruct e as [p|p st| |s l|s l re| | |]; simpl; try lia.
   - rewrite app_length. reflexivity.
   - destruct (a_find p (w_kern w)) as [[]|]; simpl; lia.
   - destruct (w_init w); [unfold cleanup; rewrite fold_try_subs|]; lia.
@@ -369,7 +369,8 @@ Definition fresh (w : world) (e : event) : Prop :=
 
 Lemma step_G w e : G w -> fresh w e -> G (step w e).
 Proof.
-  intros Gw F. destruct e as [p|p st| |s l|s l re|]; simpl.
+  intros Gw F. destruct e as [p|p st| |s l|s l re| | |]; simpl;
+    try (destruct Gw; constructor; simpl; assumption).
   - simpl in F. constructor; simpl.
     + intros q x H. destruct (g_wait w Gw q x H) as [sb [H1 H2]]. exists sb. split; [|exact H2].
       rewrite nth_error_app1 by exact (nth_error_lt _ _ _ H1). exact H1.
